@@ -25,6 +25,7 @@
 (*       peer   what the remote side saw, layer by layer                   *)
 (*              (tls / connect / socks / get / junk records)               *)
 (*       res    result class of DialContext                                *)
+(*       short  the run used a deliberately short timeout                   *)
 (*   st: history state [keys] (challenge keys seen in earlier dials)       *)
 (*                                                                         *)
 (* Digest equality is a harness-evaluated fact: the scripted server        *)
@@ -134,7 +135,10 @@ IsDL(op) == op.kind \in {"SD", "SRD", "SWD"}
 Faults(o)    == {i \in DOMAIN o.ops : o.ops[i].flt # ""}
 RWFaulted(o) == \E i \in Faults(o) : IsRW(o.ops[i])
 HookFailed(o) == \E i \in DOMAIN o.hooks : o.hooks[i].ret = "err"
-Disturbed(o) == Faults(o) # {} \/ HookFailed(o)
+(* o.short: the run used a deliberately short timeout (a stall was planned): *)
+(* with a real clock the configured deadline may strike at any earlier     *)
+(* operation; such a run may fail anywhere (cleanup obligations remain).   *)
+Disturbed(o) == Faults(o) # {} \/ HookFailed(o) \/ (o.short /\ ~o.res.conn)
 NConns(o) == Len(o.closed)
 (* the last deadline operation on connection ci cleared the deadline and did not fail *)
 SDs(o, ci) == {i \in DOMAIN o.ops : o.ops[i].c = ci /\ o.ops[i].kind = "SD"}
